@@ -52,6 +52,9 @@ mod yaml;
 
 pub use error::{Error, Result};
 
+#[cfg(feature = "verif")]
+pub mod verif;
+
 /// Translates the contents of a single input slice to a different format.
 ///
 /// See [`Translator::translate_slice`].
